@@ -459,6 +459,12 @@ def check_cfg(ctx, fx, cfg):
                     kok = bool(kr) and all(key_origin_ok(b, f, o) for o in kr)
                     ctx.require(kok, "R08.2", inst + ":key:" + t["callee"].split("::")[-1], "the registry key is not TypeId::of the service type", fn=f["def"], site=t["l"])
         judged.add(short)
+        # R08.8 what an operation answers comes from the table, not from the state of the lock: only the operation whose contract
+        # is "try" (`try_from_registry`, which may answer None for any reason) acquires the registry without waiting — for every
+        # other one a `try_read()?` / `try_write()` turns "somebody else is using the registry" into "not registered" / a failure
+        tries = [(t.get("callee"), t["l"]) for _, t in b.normal_calls() if is_acquire(t) and (acquire_kind(t) or "").startswith("try_")]
+        ctx.require(not tries or short == "try_from_registry", "R08.8", inst + ":waits-for-the-registry",
+                    "%s gives up when the registry lock is contended (%s): its answer then reflects the lock, not the table" % (short, [c for c, _ in tries]), fn=f["def"], site=tries[0][1] if tries else f["loc"])
         if short == "register":
             viols, ps = nfa.check(n, RegisterSpec())
             ctx.count_nfa({}, ps)
